@@ -264,6 +264,46 @@ def consequences(case, ctx):
 
 
 # ---------------------------------------------------------------------------
+# every small length: peak functions on records whose largest |value| is negative / positive, at the first, a middle and
+# the last sample (a length- or position-specific slip cannot hide between the randomly drawn lengths)
+
+
+def _small_peak_enum(tier, shard, nshards):
+    top = 48 if tier == "quick" else 160
+    k = 0
+    for n in range(2, top + 1):
+        for where in ("first", "mid", "last"):
+            for sign in (-1.0, 1.0):
+                if k % nshards == shard:
+                    yield {"n": n, "where": where, "sign": sign}
+                k += 1
+
+
+@enum_clause(CLAUSES, "peak-small-lengths", _small_peak_enum,
+             rule="every length 2..48 (thorough 2..160) x position of the largest |value| (first / middle / last) x its sign",
+             oracle="reference model: im.calc_peak == max|x| for the record, its velocity and displacement; AccSignal.pga / pgv / pgd == "
+                    "max|.| of the respective series; invariant to sign reversal",
+             exhaustive_note="lengths x {first, middle, last} x {+, -}", quick_shards=1)
+def peak_small_lengths(case, ctx):
+    n, where, sign = int(case["n"]), case["where"], float(case["sign"])
+    i = np.arange(n, dtype=float)
+    a = 0.4 * np.cos(1.7 * i + 0.3) * (1.0 + 0.01 * i)          # |.| < 0.9 for n <= 160
+    pos = {"first": 0, "mid": n // 2, "last": n - 1}[where]
+    a[pos] = sign * 2.0
+    ctx.nt(True)
+    asig = ctx.lib(eqsig.AccSignal, a.copy(), 0.01)
+    v = np.asarray(ctx.lib(lambda: asig.velocity))
+    d = np.asarray(ctx.lib(lambda: asig.displacement))
+    for name, ser in (("acceleration", a), ("velocity", v), ("displacement", d)):
+        want = float(np.max(np.abs(ser)))
+        for s_, lab in ((1.0, ""), (-1.0, " (sign reversed)")):
+            pk = ctx.lib(im.calc_peak, s_ * ser)
+            ctx.check(pk == want, "calc_peak(%s%s) = %r, max|.| = %r (n=%d, largest value %s at sample %d)" % (
+                name, lab, pk, want, n, "negative" if sign < 0 else "positive", pos))
+    ctx.check(asig.pga == 2.0 and asig.pgv == float(np.max(np.abs(v))) and asig.pgd == float(np.max(np.abs(d))),
+              "pga / pgv / pgd = %r / %r / %r vs max|.| (n=%d)" % (asig.pga, asig.pgv, asig.pgd, n))
+
+
 # very long records (continuous monitoring): lengths around 2^20 and 2^21
 
 
